@@ -472,7 +472,7 @@ func main() {
 	defer env.Close()
 
 	run.Rule = "board tables written as real .BRD files + cache.ReloadBCache, each started by a `reset` line carrying the table and the real " +
-		"BSorted arrays; exhaustive small shapes: every multiset of <= 4 boards (<= 5 thorough) over an alphabet built for trouble " +
+		"BSorted arrays; exhaustive small shapes: every set of <= 4 boards (<= 6 thorough) over an alphabet built for trouble " +
 		"(a, A?, ab, aB?, b, a_, a-, a0, vacated, 12-byte names, shared prefixes; names equal up to case only in the dedicated dup-name stream), " +
 		"in random slot order with random classes/group flags; every query from the alphabet plus below-first/above-last/case variants through " +
 		"GetBid and FindBoardIdxByName/ByClass in both directions; every prefix of every name through FindBoardAutoCompleteStartIdx in both " +
